@@ -49,6 +49,10 @@ class Check:
     # -- lean
     def lean_gate(self):
         self.gate_info = lean.gate(self.prop_id)
+        if self.tier == "thorough":
+            mods = lean.load_registry().get(self.prop_id, {}).get("modules", [])
+            self.extra["leanchecker_s"] = lean.leanchecker(mods)
+            self.extra["leanchecker_modules"] = mods
         return self.gate_info
 
     # -- counting
